@@ -172,6 +172,11 @@ def build_traces(path, tier, seed):
                     s = s + 0.01 * rng.standard_normal(n)             # not an exact copy
                 s = s + (rng.uniform(-0.05, 0.05) if i % 3 == 0 else 0.0)
                 sigs.append(s)
+        if i % 4 == 1:       # tiny records (1e-9) with offsets of their own size
+            sc_ = float(10.0 ** rng.uniform(-10, -8))
+            sigs = [s * sc_ + (0.0 if j == master else sc_ * rng.uniform(0.5, 2.0)) for j, s in enumerate(sigs)]
+        elif i % 4 == 3:     # records riding on a large mean level with small offsets
+            sigs = [250.0 + 0.002 * s + (0.0 if j == master else 1e-3 * rng.uniform(0.5, 2.0)) for j, s in enumerate(sigs)]
         dt = 0.01
         e_idx = int(rng.integers(4, n // 2))
         with warnings.catch_warnings():
